@@ -90,6 +90,7 @@ type measureWorld struct {
 	srv    *server
 	res    *vlib.Result
 	pids   map[int]uint64 // spec part id -> real part id
+	pbatch map[int]map[int]bool // spec part id -> write batches whose rows (and ballast) went into it
 	seriesOf map[int]int   // row id -> series
 	tOf    map[int]int   // row id -> time slot
 	vmap   int
@@ -135,7 +136,7 @@ func (m *measureWorld) setup(ctx context.Context) error {
 		Metadata: &commonv1.Metadata{Name: m.group},
 		Catalog:  commonv1.Catalog_CATALOG_MEASURE,
 		ResourceOpts: &commonv1.ResourceOpts{
-			ShardNum:        1,
+			ShardNum:        uint32(max(1, m.cfg.Shards)),
 			SegmentInterval: &commonv1.IntervalRule{Unit: commonv1.IntervalRule_UNIT_DAY, Num: 1},
 			Ttl:             &commonv1.IntervalRule{Unit: commonv1.IntervalRule_UNIT_DAY, Num: 30},
 		},
@@ -233,8 +234,107 @@ func (m *measureWorld) coverReq() *measurev1.QueryRequest {
 		TagProjection: &modelv1.TagProjection{TagFamilies: []*modelv1.TagProjection_TagFamily{{Name: "default",
 			Tags: []string{"svc", "rid", "a", "b", "arr", "ps", "pb", "pa"}}}},
 		FieldProjection: &measurev1.QueryRequest_FieldProjection{Names: []string{"fi", "ff", "fs", "fb"}},
-		Limit:           10000,
+		Limit:           1000000,
 	}
+}
+
+// ---- ballast (see config.Ballast) ------------------------------------------------------------------------
+
+func (m *measureWorld) ballastSeries(j int) string {
+	if m.cfg.BallastMode == "wide" {
+		return fmt.Sprintf("bw-%05d", j)
+	}
+	return m.seriesName(1)
+}
+
+func (m *measureWorld) ballastTime(batch, j int) time.Time {
+	if m.cfg.BallastMode == "wide" {
+		return m.ts(2).Add(time.Duration(2+batch) * time.Millisecond)
+	}
+	// a measure keeps one version per (series, timestamp): the ballast rows of different batches must not collide
+	return m.ts(2).Add(time.Duration(2+j*40+batch%40) * time.Millisecond)
+}
+
+func (m *measureWorld) ballastPoint(batch, j int) *measurev1.DataPointValue {
+	id := ballastID(batch, j)
+	null := &modelv1.TagValue{Value: &modelv1.TagValue_Null{}}
+	return &measurev1.DataPointValue{
+		Timestamp: timestamppb.New(m.ballastTime(batch, j)),
+		Version:   m.version(1),
+		TagFamilies: []*modelv1.TagFamilyForWrite{{Tags: []*modelv1.TagValue{
+			tagStr(m.ballastSeries(j)), tagInt(int64(id)), tagInt(0), tagStr("b00"),
+			{Value: &modelv1.TagValue_IntArray{IntArray: &modelv1.IntArray{Value: []int64{int64(j)}}}},
+			tagStr(ballastPayload(batch, j)), null, null,
+		}}},
+		Fields: []*modelv1.FieldValue{
+			{Value: &modelv1.FieldValue_Int{Int: &modelv1.Int{Value: int64(j)*64 + int64(batch)}}},
+			{Value: &modelv1.FieldValue_Float{Float: &modelv1.Float{Value: float64(j) / 4}}},
+			{Value: &modelv1.FieldValue_Str{Str: &modelv1.Str{Value: ballastPayload(batch, j)}}},
+			{Value: &modelv1.FieldValue_BinaryData{BinaryData: nil}},
+		},
+	}
+}
+
+func (m *measureWorld) splitBallast(dps []*measurev1.DataPoint) (spec, ballast []*measurev1.DataPoint) {
+	if m.cfg.Ballast == 0 {
+		return dps, nil
+	}
+	for _, dp := range dps {
+		if findTag(dp, "rid").GetInt().GetValue() >= ballastBase {
+			ballast = append(ballast, dp)
+		} else {
+			spec = append(spec, dp)
+		}
+	}
+	return
+}
+
+// checkBallast: every ballast data point of every acknowledged batch is returned exactly once, exactly as written.
+func (m *measureWorld) checkBallast(ballast []*measurev1.DataPoint, acked map[int]map[string]any) (string, string) {
+	want := map[int][2]int{}
+	for b := range batchesOf(acked) {
+		for j := 0; j < m.cfg.Ballast; j++ {
+			want[ballastID(b, j)] = [2]int{b, j}
+		}
+	}
+	seen := map[int]bool{}
+	for _, dp := range ballast {
+		id := int(findTag(dp, "rid").GetInt().GetValue())
+		bj, ok := want[id]
+		if !ok {
+			return "phantom-row", fmt.Sprintf("returned ballast row id %d was never written", id)
+		}
+		if seen[id] {
+			return "duplicate-row-for-key", fmt.Sprintf("ballast row id %d returned twice", id)
+		}
+		seen[id] = true
+		if got := findTag(dp, "ps").GetStr().GetValue(); got != ballastPayload(bj[0], bj[1]) {
+			return "value-not-as-written:ballast-string-tag", fmt.Sprintf("ballast row id %d (batch %d #%d): ps=%q, written %q", id, bj[0], bj[1], got, ballastPayload(bj[0], bj[1]))
+		}
+		if got := findTag(dp, "svc").GetStr().GetValue(); got != m.ballastSeries(bj[1]) {
+			return "value-not-as-written:ballast-entity", fmt.Sprintf("ballast row id %d: svc=%q, written %q", id, got, m.ballastSeries(bj[1]))
+		}
+		if !dp.Timestamp.AsTime().Equal(m.ballastTime(bj[0], bj[1])) {
+			return "value-not-as-written:ballast-timestamp", fmt.Sprintf("ballast row id %d: timestamp %s, written %s", id, dp.Timestamp.AsTime(), m.ballastTime(bj[0], bj[1]))
+		}
+		if got := findField(dp, "fi").GetInt().GetValue(); got != int64(bj[1])*64+int64(bj[0]) {
+			return "value-not-as-written:ballast-int-field", fmt.Sprintf("ballast row id %d: fi=%d, written %d", id, got, int64(bj[1])*64+int64(bj[0]))
+		}
+		if got := findField(dp, "ff").GetFloat().GetValue(); got != float64(bj[1])/4 {
+			return "value-not-as-written:ballast-float-field", fmt.Sprintf("ballast row id %d: ff=%v, written %v", id, got, float64(bj[1])/4)
+		}
+		if got := findField(dp, "fs").GetStr().GetValue(); got != ballastPayload(bj[0], bj[1]) {
+			return "value-not-as-written:ballast-string-field", fmt.Sprintf("ballast row id %d: fs=%q, written %q", id, got, ballastPayload(bj[0], bj[1]))
+		}
+	}
+	if len(seen) != len(want) {
+		for id, bj := range want {
+			if !seen[id] {
+				return "missing-row", fmt.Sprintf("%d of %d ballast rows are missing, e.g. id %d (batch %d #%d, series %s)", len(want)-len(seen), len(want), id, bj[0], bj[1], m.ballastSeries(bj[1]))
+			}
+		}
+	}
+	return "", ""
 }
 
 func tagStr(s string) *modelv1.TagValue {
@@ -307,6 +407,19 @@ func (m *measureWorld) write(ctx context.Context, rows []map[string]any) error {
 			return err
 		}
 	}
+	sent := len(rows)
+	if m.cfg.Ballast > 0 && len(rows) > 0 {
+		if _, stress := rows[0]["sec"]; !stress {
+			batch := vlib.Int(rows[0], "batch")
+			for j := 0; j < m.cfg.Ballast; j++ {
+				m.msgID++
+				if err = st.Send(&measurev1.WriteRequest{Metadata: md, DataPoint: m.ballastPoint(batch, j), MessageId: m.msgID}); err != nil {
+					return err
+				}
+				sent++
+			}
+		}
+	}
 	if err = st.CloseSend(); err != nil {
 		return err
 	}
@@ -324,8 +437,8 @@ func (m *measureWorld) write(ctx context.Context, rows []map[string]any) error {
 		}
 		acks++
 	}
-	if acks != len(rows) {
-		return fmt.Errorf("VIOLATION %d acknowledgements for %d data points", acks, len(rows))
+	if acks != sent {
+		return fmt.Errorf("VIOLATION %d acknowledgements for %d data points", acks, sent)
 	}
 	return nil
 }
@@ -365,6 +478,9 @@ func (m *measureWorld) replay(ctx context.Context, b vlib.Behaviour) {
 				}
 				return
 			}
+			if m.cfg.Shards > 1 {
+				break // several tables: the layout is not mapped (see config.Shards)
+			}
 			if m.root == "" {
 				roots := measure.VerifTableRoots("/" + m.group + "/")
 				if len(roots) != 1 {
@@ -384,22 +500,69 @@ func (m *measureWorld) replay(ctx context.Context, b vlib.Behaviour) {
 				return
 			}
 			m.pids[vlib.Int(ev, "part")] = fresh[0]
+			if m.pbatch == nil {
+				m.pbatch = map[int]map[int]bool{}
+			}
+			m.pbatch[vlib.Int(ev, "part")] = map[int]bool{}
+			for _, r := range vlib.List(ev, "rows") {
+				m.pbatch[vlib.Int(ev, "part")][vlib.Int(vlib.Rec(r), "batch")] = true
+			}
 		case "flush":
+			if m.cfg.Shards > 1 {
+				for _, r := range measure.VerifTableRoots("/" + m.group + "/") {
+					if err := measure.VerifFlush(r); err != nil {
+						m.res.Inconclusive = append(m.res.Inconclusive, "flush: "+err.Error())
+						return
+					}
+				}
+				m.res.Inc("multi_shard_flushes")
+				break
+			}
 			if err := measure.VerifFlush(m.root); err != nil {
 				m.res.Inconclusive = append(m.res.Inconclusive, "flush: "+err.Error())
 				return
 			}
 		case "merge":
+			if m.cfg.Shards > 1 {
+				for _, r := range measure.VerifTableRoots("/" + m.group + "/") {
+					_, ps := measure.VerifParts(r)
+					var files []uint64
+					for _, p := range ps {
+						if !p.Mem {
+							files = append(files, p.ID)
+						}
+					}
+					if len(files) < 2 {
+						continue
+					}
+					if _, err := measure.VerifMerge(r, files); err != nil {
+						fail("merge-failed", "merging parts %v of %s: %v", files, r, err)
+						return
+					}
+					m.res.Inc("multi_shard_merges")
+				}
+				break
+			}
 			var ids []uint64
 			for _, p := range vlib.Ints(vlib.List(ev, "inputs")) {
 				ids = append(ids, m.pids[p])
 			}
+			m.res.Inc(fmt.Sprintf("merge_fan_in_%d", len(ids)))
 			out, err := measure.VerifMerge(m.root, ids)
 			if err != nil {
 				fail("merge-failed", "merging parts %v: %v", ids, err)
 				return
 			}
 			m.pids[vlib.Int(ev, "out")] = out
+			if m.pbatch != nil {
+				u := map[int]bool{}
+				for _, p := range vlib.Ints(vlib.List(ev, "inputs")) {
+					for b := range m.pbatch[p] {
+						u[b] = true
+					}
+				}
+				m.pbatch[vlib.Int(ev, "out")] = u
+			}
 		case "query":
 			if !m.checkQuery(ctx, st, ev, fail) {
 				return
@@ -413,7 +576,7 @@ func (m *measureWorld) replay(ctx context.Context, b vlib.Behaviour) {
 			}
 			continue
 		}
-		if !m.checkParts(st, op, fail) {
+		if m.cfg.Shards <= 1 && !m.checkParts(st, op, fail) {
 			return
 		}
 		if !m.checkCover(ctx, st, op, fail) {
@@ -459,8 +622,12 @@ func (m *measureWorld) checkParts(st vlib.State, op string, fail func(string, st
 			fail("part-kind-differs-after-"+op, "part %d: real mem=%v spec mem=%v", rp.ID, rp.Mem, vlib.Bool(p, "mem"))
 			return false
 		}
-		if m.cfg.Versioned && int(rp.Count) != len(vlib.List(p, "rows")) {
-			fail("part-count-differs-after-"+op, "part %d holds %d rows, spec %d", rp.ID, rp.Count, len(vlib.List(p, "rows")))
+		wantCount := len(vlib.List(p, "rows"))
+		if m.cfg.Ballast > 0 {
+			wantCount += m.cfg.Ballast * len(m.pbatch[vlib.Int(p, "pid")])
+		}
+		if m.cfg.Versioned && int(rp.Count) != wantCount {
+			fail("part-count-differs-after-"+op, "part %d holds %d rows, spec %d", rp.ID, rp.Count, wantCount)
 			return false
 		}
 	}
@@ -612,7 +779,15 @@ func (m *measureWorld) checkCover(ctx context.Context, st vlib.State, op string,
 		return false
 	}
 	m.res.Inc("cover_queries")
-	if sig, msg := m.matchGroups(resp.DataPoints, vlib.List(st, "view"), nil, ackedMap(st)); sig != "" {
+	specDps, ballast := m.splitBallast(resp.DataPoints)
+	if m.cfg.Ballast > 0 {
+		m.res.Stats["ballast_rows_compared"] += len(ballast)
+		if sig, msg := m.checkBallast(ballast, ackedMap(st)); sig != "" {
+			fail(sig+"-after-"+op, "%s", msg)
+			return false
+		}
+	}
+	if sig, msg := m.matchGroups(specDps, vlib.List(st, "view"), nil, ackedMap(st)); sig != "" {
 		if strings.HasSuffix(sig, "negative-zero") {
 			fail(sig, "%s (after %s)", msg, op) // one root cause whatever the step: the decimal float column drops the sign of zero
 			return false
